@@ -25,7 +25,8 @@ CONSTANTS Nodes,        \* real nodes (each has an engine and an agent)
           SpawnIds,     \* ids used by Cluster.Spawn (kind "sp")
           InitUp,       \* members of the cluster at the start (activation mode)
           MaxOps, Mode,
-          PurgeByHost, SendTopology, CheckDuplicate      \* mechanism switches (regression configs)
+          PurgeByHost, SendTopology, CheckDuplicate,     \* mechanism switches (regression configs)
+          Rogue          \* TRUE: the select function may also return a remote member that does not have the kind
 
 Members == Nodes \cup Ghosts
 VARIABLES up, ever, members, kinds, activated, registry, net, psnap, nops, emitted, lastop
@@ -93,6 +94,10 @@ Activate(n, k, i, m) ==
   /\ nops' = nops + 1
   /\ IF (CheckDuplicate /\ HasId(n, <<k, i>>)) \/ Candidates(n, k) = {}
      THEN /\ m = n          \* (no choice to make)
+          /\ lastop' = [op |-> "activate", n |-> n, ret |-> "nil"]
+          /\ UNCHANGED <<registry, net>>
+     ELSE IF Rogue /\ m \in (members[n] \cap Nodes) \ (Candidates(n, k) \cup {n})
+     THEN \* the chosen member refuses (kind not registered there): nil, and no trace of the attempt anywhere
           /\ lastop' = [op |-> "activate", n |-> n, ret |-> "nil"]
           /\ UNCHANGED <<registry, net>>
      ELSE /\ m \in Candidates(n, k) /\ m \in Nodes
